@@ -60,7 +60,8 @@ def run(rng, tier, res=None):
         X = X / X.sum(axis=1, keepdims=True)          # probability vectors: inside every metric's domain
         Y = np.array([i % 2 for i in range(n)], dtype=int)
         Xt, Xu, Q = X[:n], X[n:n + 2], X[n + 2:]
-        if kind == "semi" and case % 8 == 1 and metric in ("euclidean", "manhattan", "squared_euclidean", "chebyshev", "log_squared_euclidean"):
+        if kind == "semi" and case % 8 == 1:
+            metric = rng.choice(["euclidean", "manhattan", "squared_euclidean", "chebyshev", "log_squared_euclidean"])
             # integer-typed labeled samples with fractional unlabeled ones: every stored sample keeps its own values
             Xt = np.array([[rng.randint(0, 6) for _ in range(d)] for _ in range(n)], dtype=np.int64)
             pre = False
